@@ -160,9 +160,8 @@ def rowS (support : List Nat) (r : Gimli.Spec.Unwind.TableRow) : String :=
   s!"{r.start},{r.end_},{cfaS r.rules.cfa},{r.rules.argsSize},{rs}"
 
 /-- the read-back domain of `wcfi-rows`, decided from the request alone (the Rust side applies the
-same test): address sizes 4/8, constant addresses that fit, LSDA iff the CIE has an encoding, and
-not the recorded finding C14-1 (`.eh_frame` return address register from 128 on) -/
-def readable (eh : Bool) (cies : List WCie) (fdes : List (Nat × WFde)) : Bool :=
+same test): address sizes 4/8, constant addresses that fit, LSDA iff the CIE has an encoding -/
+def readable (cies : List WCie) (fdes : List (Nat × WFde)) : Bool :=
   fdes.all fun (k, f) =>
     match cies[k]? with
     | none => false
@@ -173,8 +172,7 @@ def readable (eh : Bool) (cies : List WCie) (fdes : List (Nat × WFde)) : Bool :
       (c.addressSize == 4 || c.addressSize == 8) && fits f.address &&
       (match f.lsda with | some a => fits a | none => true) &&
       (f.lsda.isSome == c.lsdaEncoding.isSome) &&
-      (match c.personality with | some (_, a) => fits a | none => true) &&
-      !(eh && decide (c.raReg.toNat ≥ 128))
+      (match c.personality with | some (_, a) => fits a | none => true)
 
 def fdeRowsS (c : WCie) (f : WFde) : String :=
   match f.address with
@@ -218,7 +216,7 @@ def handle (op : String) (args : List String) : Option String :=
         | none => .panic "bad cie call index") (.ok (t, []))
     let r : Out (Bytes × List (Nat × WFde)) := built.bind fun (t, l) => (tableWrite m e eh t).map (fun bs => (bs, l))
     pure (r.render fun (_, l) =>
-      if !readable eh cs l then "skip"
+      if !readable cs l then "skip"
       else
         let per := l.map fun (k, f) => match cs[k]? with
           | some c => fdeRowsS c f
